@@ -17,10 +17,11 @@ TYPES = {
     "len": [("m", "metre", None), ("cm", "centimetre", 0.01), ("km", "kilometre", 1000.0), ("mm", "millimetre", 0.001), ("dm", "decimetre", 0.1)],
     "tim": [("s", "second", None), ("min", "minute", 60.0), ("h", "hour", 3600.0), ("cyc/s", "cycles per second", "recip:1.0")],
     "amt": [("mol", "mole", None), ("lbmol", "pound-mole", 453.59237), ("gmol", "gram-mole", 1.0), ("kmol", "kilomole", 1000.0)],
+    "dmp": [("Ns/m", "newton second per metre", None), ("kNs/m", "kilonewton second per metre", 1000.0), ("lbmole.s", "made-up", 2.0)],
     "tmp": [("K", "kelvin", None), ("degX", "degree X", (1.0, 273.15)), ("degY", "degree Y", (5.0 / 9.0, 255.0))],
 }
 LEGACY_OF = {"lbmol": "lbmole", "gmol": "gmole"}
-CATS = ["len", "depth", "tim", "amt", "moles", "span", "tmp", "len alias"]
+CATS = ["len", "depth", "tim", "amt", "moles", "span", "tmp", "len alias", "dmp"]
 NOPE_T, NOPE_U, NOPE_C = "no such type", "nope", "no such category"
 
 
@@ -143,7 +144,10 @@ class RegGen:
         u, name, _k = cands[0] if rng.random() < 0.6 else rng.choice(cands)
         if rng.random() < 0.08 * self.bad_rate:
             u = rng.choice(self.all_units())  # possibly a symbol of another type
-        return self._op("reg.AddUnitBase", "AddUnitBase", [t, name, u], reg={"kind": "AddUnitBase", "type": t, "unit": u, "name": name})
+        arg = u
+        if rng.random() < 0.05 * self.bad_rate:
+            arg = {"np": u, "dt": "str_"}  # a str subclass as symbol
+        return self._op("reg.AddUnitBase", "AddUnitBase", [t, name, arg], reg={"kind": "AddUnitBase", "type": t, "unit": u, "name": name})
 
     def g_unit(self, sim, model):
         rng = self.rng
@@ -159,7 +163,7 @@ class RegGen:
         fb, tb = self.conv(k)
         bad = None
         if r > 1.0 - 0.1 * self.bad_rate:
-            bad = rng.choice(["no_x", "syntax", "unit_none", "unit_int"])
+            bad = rng.choice(["no_x", "syntax", "unit_none", "unit_int", "unit_npstr", "unit_npstr"])
             if bad == "no_x":
                 fb = "100.0"
             elif bad == "syntax":
@@ -172,13 +176,19 @@ class RegGen:
             a[2] = None
         elif bad == "unit_int":
             a[2] = 7
+        unit_for_model = a[2]
+        if bad == "unit_npstr":
+            # a str SUBCLASS as symbol (numpy.str_): whatever the call answers, everything registered
+            # must still build a Scalar afterwards
+            a[2] = {"np": u, "dt": "str_"}
+            unit_for_model = u
         kw = {"default_category": dc} if dc is not None else None
         return self._op(
             "reg.AddUnit",
             "AddUnit",
             a,
             kw=kw,
-            reg={"kind": "AddUnit", "type": t, "unit": a[2], "name": name, "k": list(k) if isinstance(k, tuple) else k, "default_category": dc, "bad": bad},
+            reg={"kind": "AddUnit", "type": t, "unit": unit_for_model, "name": name, "k": list(k) if isinstance(k, tuple) else k, "default_category": dc, "bad": bad},
         )
 
     def g_cat(self, sim, model):
@@ -336,7 +346,7 @@ class RegModel:
             self.preexisting_types = set()
         elif k in ("AddUnit", "AddUnitBase"):
             t, u = reg["type"], reg["unit"]
-            self.units[u] = {"type": t, "name": reg["name"], "dc": reg.get("default_category")}
+            self.units[u] = {"type": t, "name": reg["name"], "dc": reg.get("default_category"), "inrun": True}
             ent = self.types.setdefault(t, {"order": [], "bases": []})
             if k == "AddUnitBase":
                 ent["order"].insert(0, u)
@@ -642,6 +652,11 @@ class RegMonitor(Mon.Monitor):
             units = list(db.GetUnits(t))[:6]
         for u in units:
             dc = db.GetDefaultCategory(u)
+            mu = model.units.get(u) if hasattr(model, "units") else None
+            if mu is not None and mu.get("inrun"):
+                want = mu["dc"] or (mu["type"] if model.cats.get(mu["type"], {}).get("type") == mu["type"] else None)
+                if want and model.cats.get(want, {}).get("type") == mu["type"]:
+                    sim.check(dc == want, "C14.usable", dict(sigx, case="unit_default_category", why="resolves_elsewhere"), step, "unit %r registered in %r: default category %r, expected %r" % (u, mu["type"], dc, want))
             if not dc or not db.IsValidCategory(dc):
                 if shipped and shipped != "W-POSC-NC":  # without categories nothing can resolve, by construction
                     sim.check(False, "C14.usable", dict(sigx, case="unit_without_default_category"), step, "unit %r has no resolvable default category (%r)" % (u, dc))
